@@ -279,6 +279,25 @@ theorem float_time_selects_nearest (t start dt : Rat) (k : Int) (hdt : 0 < dt)
   have hk := FloatGrid.roundHalfEven_eq_of_close (stepQuotient t start dt) k (by linarith)
   exact ⟨(float_time_step t start dt k).1.2 hk, (float_time_step t start dt k).2.2 hk⟩
 
+/-- a time stamp whose nearest grid index is not a step `0..N` of the run (dated before the start
+    or after the end) is selected at NO step of the run: such a control never acts -/
+theorem float_time_outside_run (t start dt : Rat) (N : Nat)
+    (h : roundHalfEven (stepQuotient t start dt) < 0 ∨
+         (N : Int) < roundHalfEven (stepQuotient t start dt)) (k : Nat) (hk : k ≤ N) :
+    timeSelect_pre t start dt (k : Int) = false ∧ timeSelect_post t start dt (k : Int) = false := by
+  have hne : roundHalfEven (stepQuotient t start dt) ≠ (k : Int) := by
+    rcases h with h | h <;> omega
+  constructor
+  · cases hc : timeSelect_pre t start dt (k : Int) with
+    | false => rfl
+    | true => exact absurd ((float_time_step t start dt k).1.1 hc) hne
+  · cases hc : timeSelect_post t start dt (k : Int) with
+    | false => rfl
+    | true => exact absurd ((float_time_step t start dt k).2.1 hc) hne
+
+/-- non-vacuity: `start_time = 1.0`, `dt = 0.1`, a control dated `t = 0.9` has nearest index -1 -/
+example : roundHalfEven (stepQuotient (lit 9 1) (lit 10 1) (lit 1 1)) < 0 := by decide +kernel
+
 /-- ties: a computed quotient exactly half-way between two steps goes to the EVEN one -/
 theorem float_time_tie_even (t start dt : Rat) (step : Int)
     (htie : stepQuotient t start dt - ⌊stepQuotient t start dt⌋ = 1 / 2)
